@@ -200,11 +200,22 @@ Qed.
 
 Lemma implements_iff t v :
   StronglySorted imlt t -> StronglySorted mlt v ->
-  (implements t (Some v) = true <-> Forall (has v) t).
+  (implements false t (Some v) = true <-> Forall (has v) t).
 Proof.
   intros St Sv. destruct t as [|tm t]; cbn [implements].
   - split; [constructor|reflexivity].
   - split; [apply impl_scan_sound|now apply impl_scan_complete].
+Qed.
+
+(* the repaired Implements: one findMethod per interface method; no order is assumed of t *)
+Lemma implements_fixed_iff t v :
+  StronglySorted mlt v -> (implements true t (Some v) = true <-> Forall (has v) t).
+Proof.
+  intros Sv. destruct t as [|tm t]; cbn [implements]; [split; [constructor|reflexivity]|].
+  rewrite forallb_forall, Forall_forall. split; intros A im I; specialize (A im I).
+  - destruct (find_method v im) as [fn|] eqn:F; [|discriminate].
+    destruct (find_method_sound _ _ _ F) as (m & Im & M & _). exists m; auto.
+  - destruct A as (m & Im & M). now rewrite (find_method_complete v Sv im m Im M).
 Qed.
 
 (* the interface order of go/types (exported names first) is not the byte order of the
@@ -216,9 +227,10 @@ Definition w_table : list meth :=
 
 Lemma implements_order_witness :
   StronglySorted mlt w_table /\ Forall (has w_table) w_inter /\
-  implements w_inter (Some w_table) = false /\ new_itab w_inter (Some w_table) = Some [8; 7].
+  implements false w_inter (Some w_table) = false /\ new_itab w_inter (Some w_table) = Some [8; 7]
+  /\ implements true w_inter (Some w_table) = true.
 Proof.
-  split; [|split; [|split; reflexivity]].
+  split; [|split; [|repeat split; reflexivity]].
   - repeat constructor.
   - constructor; [|constructor; [|constructor]].
     + exists (Meth [70;111;111] 1 8). split; [right; left; reflexivity|split; reflexivity].
